@@ -5,6 +5,16 @@ HOOK_COMMITS = ["80fcbe6"]
 TODO = "check not built yet in this round; design in DESIGN.md section 5 (to be claimed when the TLA+ module and harness exist)"
 
 CLAIMS = {
+    "C17": {
+        "text": "TLA+ contract of a run-time changeable connection cap (specs/ConnCapContract.tla) and implementation-shaped model of x/sync's FIFO weighted semaphore, asynchronous SetMaxCount, LimitListener "
+                "acceptor and release-once close (specs/ConnCap.tla), model-checked; refinement shown for the ordered-tuner code and refuted for unordered tuners (the defect that was repaired). TLC schedules "
+                "executed on the real LimitListener and Semaphore with the background adjustments ordered through the sem.resize gate (hook H1); concurrent histories of the real Semaphore, LimitListener and "
+                "HTTPServer runtime (maxConnections changed by reload, raw clients, half-close) validated by TLC against the contract with a conservative open counter. MQTT half (specs/MqttConnCap*.tla): "
+                "connect / takeover / disconnect histories of a real Broker with raw clients validated by TLC (never more than maxAllowedConnection registered clients; refusals are server-unavailable).",
+        "note": "a change counts as applied when SetMaxCount's done channel closes; at server level completion is assumed after a settle time and re-checked at 5x; HTTP/3 not covered; Go scheduler explored "
+                "by stress plus gate, not exhaustively",
+        "technique": "TLA+ spec + TLC model checking (refinement); TLC-generated schedules replayed on the real code through a scheduling gate; TLC trace validation",
+    },
     "C04": {
         "text": "TLA+ contract of the pool as load balancer (LoadBalance.tla: generations of the server list incl. discovery with static fallback, least-chosen rule for roundRobin, per-generation stickiness, "
                 "positive-weight rule, nil iff empty) model-checked with all clauses as invariants; an implementation-shaped layer (atomic.Value, fetch-add, hash mod n, weighted walk) is checked to refine it. "
